@@ -6,9 +6,10 @@ open Pyemv Pyemv.Gen
 
 theorem mac_mac3 (k1 k2 d : Bytes) (pm : Int) (l : Option Nat) : Gen.mac.mac_iso9797_3 k1 k2 d pm l = mac3 k1 k2 d pm l := by
   unfold Gen.mac.mac_iso9797_3 mac3 padSelect macCore
+  try simp only [bind_pure]      -- `do let v ← e; pure v` is `e` (single-exit rewrites)
   have p1n : ∀ x : Bytes, pad1 x none = pad1 x (some 8) := fun _ => rfl     -- the block size left to the callee's default
   have p2n : ∀ x : Bytes, pad2 x none = pad2 x (some 8) := fun _ => rfl
-  simp only [mac_pad1, mac_pad2, p1n, p2n, zeros, List.replicate, List.length_cons, List.length_nil, bind, Except.bind, pure, Except.pure]
+  simp only [mac_pad1, mac_pad2, p1n, p2n, zeros, List.replicate, List.length_cons, List.length_nil, bind, Except.bind, pure, Except.pure, except_match_eta]
   by_cases h1 : pm = 1
   · subst h1
     simp only [if_true]
